@@ -86,3 +86,51 @@ func VH_C07_BatchQueueFIFO(ops int) {
 	vhAssert(q.Get() == nil, "drained-closed-queue-returns-nil")
 	vhReach("c07-batch-queue-fifo")
 }
+
+// H6 (lock hand-off schedule): two goroutines make their first write to a partition at the same time (every Unlock /
+// RUnlock yields to the other). The partition still has ONE sender: after everything has settled exactly one
+// goroutine waits for batches of that partition, and each goroutine's messages are in the log in its own order.
+func VH_C07_ConcurrentFirstWrite() {
+	vhConcreteClock(true)
+	vhHandoff(true)
+	tr := &vhTransport{partitions: 1, budget: 1, fixed: []int{vhAcked, vhAcked, vhAcked, vhAcked, vhAcked, vhAcked, vhAcked, vhAcked}}
+	w := &Writer{Addr: TCP("vh:9092"), Topic: "t", MaxAttempts: 1, BatchSize: 1, Transport: tr, RequiredAcks: RequireAll, Async: true}
+	ctx := context.Background()
+	done := 0
+	for g := 0; g < 2; g++ {
+		g := g
+		go func() {
+			w.WriteMessages(ctx, Message{Value: []byte{byte(10 * (g + 1))}})
+			w.WriteMessages(ctx, Message{Value: []byte{byte(10*(g+1) + 1)}})
+			done++
+		}()
+	}
+	for i := 0; i < 6; i++ {
+		vhSettle()
+	}
+	vhAssert(done == 2, "both-submitters-return")
+	senders := 0
+	for i := 1; i <= vhSpawned(); i++ {
+		if !vhCoroDone(i) && vhCoroBlockedOn(i) == "(*sync.Cond).Wait" {
+			senders++ // a partition's sender idles in batchQueue.Get
+		}
+	}
+	vhAssert(senders <= 1, "a-partition-has-one-sender")
+	pos := map[int]int{}
+	n := 0
+	for _, j := range tr.journal {
+		for _, id := range j.ids {
+			pos[id] = n
+			n++
+		}
+	}
+	vhAssert(n == 4, "every-message-produced-once")
+	vhAssert(pos[10] < pos[11] && pos[20] < pos[21], "each-submitters-messages-in-its-own-order")
+	closed := false
+	go func() { w.Close(); closed = true }()
+	for i := 0; i < 4 && !closed; i++ {
+		vhSettle()
+	}
+	vhAssert(closed, "close-returns")
+	vhReach("c07-concurrent-first-write")
+}
